@@ -2,6 +2,7 @@ SPECIFICATION Spec
 CONSTANT MaxLen = 3
 CONSTANT MaxAvail = 5
 CONSTANT Mode = "split"
+CONSTANT MaxMsgs = 2
 CONSTANT Kinds = {"msg"}
 INVARIANT SplitOK
 CHECK_DEADLOCK FALSE
